@@ -67,6 +67,12 @@ def prefix_of(sub: 'Path', p: 'Path', i: 'Int') -> 'Bool':
     return prefix_of(sub, p, i - 1) and sub[i - 1] == p[i - 1]
 
 
+@ghost(quantified=True)
+def below(sub: 'Path', p: 'Path') -> 'Bool':
+    """p lies at or below sub (sub is a prefix of p) -- non-recursive, usable under quantifiers"""
+    return len(sub) <= len(p) and forall_range(0, len(sub), lambda j: p[j] == sub[j])
+
+
 # ---- trees ----------------------------------------------------------------------
 
 @ghost(decreases='len(p)')
